@@ -113,46 +113,35 @@ Proof.
     apply existsb_exists in X. destruct X as (e & He & D). rewrite (H e He) in D. discriminate.
 Qed.
 
-(* once two documents were picked and the differ returned its report, the status is 0 or 1,
-   and it is 0 exactly when no entry is a difference *)
-Lemma diff_exit_iff : forall estr a lhs rhs entries li ri,
-  dr_picked (diff_main estr a lhs rhs (LOk entries)) = Some (li, ri) ->
-  (r_status (dr_run (diff_main estr a lhs rhs (LOk entries))) = Exit 0 <-> no_difference entries) /\
-  (r_status (dr_run (diff_main estr a lhs rhs (LOk entries))) = Exit 1 <-> ~ no_difference entries).
-Proof.
-  intros estr a lhs rhs entries li ri. unfold diff_main.
-  destruct (negb (Nat.eqb (diff_validate_errors a) 0)); simpl; [discriminate|].
-  destruct (diff_get_docs estr lhs) as [nl|h|c]; simpl; try discriminate;
-  destruct (diff_get_docs estr rhs) as [nr|h'|c']; simpl; try discriminate.
-  destruct (Nat.ltb 1 nl && _); simpl; [discriminate|].
-  destruct (diff_get_doc nl _); simpl; try discriminate.
-  destruct (Nat.ltb 1 nr && _); simpl; [discriminate|].
-  destruct (diff_get_doc nr _); simpl; try discriminate.
-  intros _. rewrite <- changes_found_iff.
-  destruct (changes_found entries); split; split; intro H; try reflexivity; try congruence; try discriminate.
-Qed.
+Definition all_render (entries : list dentry) : Prop := forall e, In e entries -> snd e = None.
 
 Lemma printed_entries_app : forall a b, printed_entries (a ++ b) = printed_entries a ++ printed_entries b.
 Proof. intros. unfold printed_entries. apply flat_map_app. Qed.
 
 Lemma diff_report_entries : forall a entries i sep,
-  printed_entries (diff_report a entries i sep) =
-  if n_quiet (da_noise a) then [] else selected_from a entries i.
+  all_render entries ->
+  snd (diff_report a entries i sep) = None /\
+  printed_entries (fst (diff_report a entries i sep)) =
+  (if n_quiet (da_noise a) then [] else selected_from a (map fst entries) i).
 Proof.
   intros a entries. destruct (n_quiet (da_noise a)) eqn:Q.
-  - induction entries as [|e r IH]; intros i sep; simpl; [reflexivity|]. rewrite Q. apply IH.
-  - induction entries as [|e r IH]; intros i sep; simpl; [reflexivity|]. rewrite Q.
-    destruct (diff_selected a e).
-    + rewrite printed_entries_app. destruct sep; simpl; rewrite IH; reflexivity.
-    + apply IH.
+  - induction entries as [|[act pr] r IH]; intros i sep R; simpl; [auto|]. rewrite Q.
+    apply IH. intros e He. apply R. right. exact He.
+  - induction entries as [|[act pr] r IH]; intros i sep R; simpl; [auto|]. rewrite Q.
+    assert (R' : all_render r) by (intros e He; apply R; right; exact He).
+    pose proof (R (act, pr) (or_introl eq_refl)) as P. simpl in P. subst pr.
+    destruct (diff_selected a act).
+    + destruct (IH (S i) true R') as [U E]. destruct (diff_report a r (S i) true) as [ls u]. simpl in *.
+      split; [exact U|]. rewrite printed_entries_app. destruct sep; simpl; rewrite E; reflexivity.
+    + apply IH. exact R'.
 Qed.
 
-(* what is printed is exactly the selected entries of the differ's report, in report order
-   (nothing under --quiet) *)
-Lemma diff_prints_entries : forall estr a lhs rhs entries li ri,
-  dr_picked (diff_main estr a lhs rhs (LOk entries)) = Some (li, ri) ->
-  printed_entries (r_out (dr_run (diff_main estr a lhs rhs (LOk entries)))) =
-  if n_quiet (da_noise a) then [] else selected_from a entries 0.
+(* once two documents were picked, the differ returned its report and every entry renders:
+   the status is 0 or 1, and it is 0 exactly when no entry is a difference *)
+Lemma diff_exit_iff : forall estr a lhs rhs entries li ri,
+  dr_picked (diff_main estr a lhs rhs (LOk entries)) = Some (li, ri) -> all_render entries ->
+  (r_status (dr_run (diff_main estr a lhs rhs (LOk entries))) = Exit 0 <-> no_difference (map fst entries)) /\
+  (r_status (dr_run (diff_main estr a lhs rhs (LOk entries))) = Exit 1 <-> ~ no_difference (map fst entries)).
 Proof.
   intros estr a lhs rhs entries li ri. unfold diff_main.
   destruct (negb (Nat.eqb (diff_validate_errors a) 0)); simpl; [discriminate|].
@@ -162,7 +151,29 @@ Proof.
   destruct (diff_get_doc nl _); simpl; try discriminate.
   destruct (Nat.ltb 1 nr && _); simpl; [discriminate|].
   destruct (diff_get_doc nr _); simpl; try discriminate.
-  intros _. apply diff_report_entries.
+  intros _ R. destruct (diff_report_entries a entries 0 false R) as [U _].
+  destruct (diff_report a entries 0 false) as [ls u]. simpl in U. subst u. simpl.
+  rewrite <- changes_found_iff.
+  destruct (changes_found (map fst entries)); split; split; intro H; try reflexivity; try congruence; try discriminate.
+Qed.
+
+(* what is printed is exactly the selected entries of the differ's report, in report order
+   (nothing under --quiet) *)
+Lemma diff_prints_entries : forall estr a lhs rhs entries li ri,
+  dr_picked (diff_main estr a lhs rhs (LOk entries)) = Some (li, ri) -> all_render entries ->
+  printed_entries (r_out (dr_run (diff_main estr a lhs rhs (LOk entries)))) =
+  if n_quiet (da_noise a) then [] else selected_from a (map fst entries) 0.
+Proof.
+  intros estr a lhs rhs entries li ri. unfold diff_main.
+  destruct (negb (Nat.eqb (diff_validate_errors a) 0)); simpl; [discriminate|].
+  destruct (diff_get_docs estr lhs) as [nl|h|c]; simpl; try discriminate;
+  destruct (diff_get_docs estr rhs) as [nr|h'|c']; simpl; try discriminate.
+  destruct (Nat.ltb 1 nl && _); simpl; [discriminate|].
+  destruct (diff_get_doc nl _); simpl; try discriminate.
+  destruct (Nat.ltb 1 nr && _); simpl; [discriminate|].
+  destruct (diff_get_doc nr _); simpl; try discriminate.
+  intros _ R. destruct (diff_report_entries a entries 0 false R) as [_ E].
+  destruct (diff_report a entries 0 false) as [ls u]. simpl in *. exact E.
 Qed.
 
 (* default options: every difference is printed, nothing else *)
